@@ -175,12 +175,16 @@ class C13(BaseCheck):
         import os
         self.repo_prefix = os.path.join(os.path.realpath(runner.REPO), 'hszinc') + os.sep
         self.pp_prefix = os.path.dirname(os.path.realpath(pyparsing.__file__)) + os.sep
-        self.shipped_cache = getattr(gf._filter_function, 'cache_info', None) is not None
+        # the compiled-filter cache is an implementation detail: every access to it is optional, so that a
+        # behaviour-preserving rewrite (renamed function, hand-written LRU, debug print removed) only switches
+        # a knob or a probe off and never raises an alarm or breaks the check
+        ff = getattr(gf, '_filter_function', None)
+        self.shipped_cache = getattr(ff, 'cache_info', None) is not None
         # objects that exist before a run are never garbage of that run: keep injected
         # gc.collect() calls cheap by moving them out of the collector's sight
         gc.collect()
         gc.freeze()
-        self.can_rewrap = hasattr(gf._filter_function, '__wrapped__')
+        self.can_rewrap = hasattr(ff, '__wrapped__')
 
     # warm runs start from a process in which the lazily streamlined pyparsing grammar has
     # already been used once (64 ms the first time); cold runs (knob) start from the bare import
@@ -191,7 +195,7 @@ class C13(BaseCheck):
             g = self.hszinc.Grid(version='3.0', columns=[('id', [])])
             g.append({'id': self.hszinc.Ref('w'), 'n': 1})
             g.filter('warmup and n == 0 or not x->y')
-            if hasattr(self.gf._filter_function, 'cache_clear'):
+            if hasattr(getattr(self.gf, '_filter_function', None), 'cache_clear'):
                 self.gf._filter_function.cache_clear()
         finally:
             sys.stdout = old
@@ -360,7 +364,7 @@ class C13(BaseCheck):
         gf = self.gf
         if cap is None:
             return 'as-shipped'
-        if not hasattr(gf._filter_function, '__wrapped__'):
+        if not hasattr(getattr(gf, '_filter_function', None), '__wrapped__'):
             stats['knob_unavailable.cache'] = 1
             return 'as-shipped'
         from functools import lru_cache
@@ -478,7 +482,10 @@ class C13(BaseCheck):
             compiles = sum(1 for (_, s) in out.writes if s.startswith('\nGenerate:'))
             stats['probe.compiles'] = compiles
             stats['probe.cache_hits'] = len(events) - compiles if len(events) >= compiles else 0
-            ev = max(0, compiles - (cap if isinstance(cap, int) else 500))
+            capn = cap if isinstance(cap, int) else 500
+            # evictions: from the debug prints when they exist, else by construction (more distinct filters used
+            # than the cache holds means something was evicted)
+            ev = max(0, compiles - capn, len(set(seq[:len(events)])) - capn)
             stats['probe.evictions'] = ev
             stats['probe.unraisable'] = len(unraisable)
             stats['capacity.%s' % cap] = 1
@@ -709,7 +716,17 @@ class C13(BaseCheck):
             stats['capped_runs'] = 1
         if isinstance(cap, int):
             stats['probe.evictions'] = max(0, len(compiles) - cap)
-        compiling_threads = len(set(tid for tid, _ in compiles))
+        # which threads had to compile something is known by construction (first use of a text in this run,
+        # the cache starts empty): it does not depend on the library's debug print
+        first_use = {}
+        for (tid, oi, kind, fi, want, got) in sorted(results, key=lambda rec: (rec[1], rec[0])):
+            if kind in ('filter', 'scan', 'hold') and fi not in first_use:
+                first_use[fi] = tid
+        for tid, prog in enumerate(case['threads']):
+            for o in prog['ops']:
+                if o['op'] == 'hold':
+                    first_use.setdefault(('hold', o['f'] % len(pool)), tid)
+        compiling_threads = len(set(first_use.values())) if first_use else len(set(tid for tid, _ in compiles))
         if viol:
             viol['schedule'] = sim.decisions
             viol['detail']['strategy'] = st['kind']
